@@ -427,7 +427,48 @@ def _Uc(models, i, x):
     return nu.pos_term(0, x, INF)
 
 
-INCS = {"oo": [(1, 1), (-1, 1), (1, -1), (-1, -1)], "oe": [(1, 2), (-1, 2), (1, -2), (-1, 0)], "eo": [(2, 1), (-2, -1), (0, 1)], "ee": [(2, 2), (-2, 2), (0, 2), (2, 0)]}
+# "after_*": the same simulation object has already coupled increments of another parity class (the coupling of an increment does not
+# depend on what was coupled before)
+def replay_copula_sequence(sc):
+    """real copula coupling (HEM x HEM, Clayton) on a fresh simulation object: the fine increments `incs` are coupled one after the other
+    (several uniforms each); every coupled value copies the even coordinates and sits on an adjacent coarse state in the odd ones"""
+    import rpylib.model.levymodel.mixed.hem as HEM
+    from rpylib.distribution.levycopula import ClaytonCopula
+
+    ms = [HEM.HEMModel(HEM.HEMParameters(sigma=0.1, p=0.4, eta1=20.0, eta2=25.0, intensity=6.0)),
+          HEM.HEMModel(HEM.HEMParameters(sigma=0.1, p=0.6, eta1=15.0, eta2=30.0, intensity=5.0))]
+    lcm = LCM.LevyCopulaModel(models=ms, copula=ClaytonCopula(theta=2.0, eta=0.5))
+    h = 0.1
+    axis = np.array([-h, 0.0, h])
+    grid = GS.CTMCGrid(h=h, origin_coordinate=1, axes=[axis.copy(), axis.copy()])
+    cp = CLC.CouplingProcessLevyCopula(lcm, grid, SamplingMethod.INVERSION)
+    coarse = [np.array(ax, dtype=float) for ax in grid.axes]
+    cp.next_level(mc_paths=0, path_managers=None, product=StubProduct(times=TIMES))
+    sim = cp._path_coupling_simulation
+    fa, piv = grid.axes, grid.origin_coordinate
+    bad = []
+    saved = cp._uniform.sample
+    try:
+        for inc in [tuple(i) for i in sc["incs"]]:
+            for u in (0.05, 0.35, 0.65, 0.95):
+                cp._uniform.sample = lambda size=1, u=u: np.array([u])
+                val = np.asarray(sim._CouplingLevyCopulaSimulation__coupling_state(tuple(inc)), dtype=float)
+                for i in range(2):
+                    x = float(fa[i][piv[i] + inc[i]])
+                    if inc[i] % 2 == 0:
+                        if abs(val[i] - x) > 1e-12:
+                            bad.append(f"increment {inc} (u={u}): even coordinate {i} is {val[i]!r}, the fine state is {x!r}")
+                    else:
+                        near = sorted(coarse[i], key=lambda c: abs(c - x))[:2]
+                        if min(abs(val[i] - c) for c in near) > 1e-12:
+                            bad.append(f"increment {inc} (u={u}): odd coordinate {i} moved to {val[i]!r}, adjacent coarse states are {sorted(float(c) for c in near)}")
+    finally:
+        cp._uniform.sample = saved
+    return bool(bad), f"HEM x HEM, Clayton(2, 0.5), 3x3 -> 5x5, increments coupled in the order {sc['incs']}: " + ("; ".join(bad[:3]) if bad else "copied / moved to adjacent coarse states")
+
+
+INCS = {"after_eo": [(2, 1), (1, 1)], "after_oe": [(-1, 2), (-1, -1)], "after_ee": [(2, -2), (1, -1)],
+        "oo": [(1, 1), (-1, 1), (1, -1), (-1, -1)], "oe": [(1, 2), (-1, 2), (1, -2), (-1, 0)], "eo": [(2, 1), (-2, -1), (0, 1)], "ee": [(2, 2), (-2, 2), (0, 2), (2, 0)]}
 
 
 def h_copula(ctx, parity, which=None):
@@ -452,12 +493,13 @@ def h_copula(ctx, parity, which=None):
     fcs = [cells(ax, piv[i]) for i, ax in enumerate(fa)]
     rp = (replay_copula, lambda m: {})
     incs = INCS[parity] if which is None else [INCS[parity][which]]
+    rps = (replay_copula_sequence, lambda m: {"incs": [list(i) for i in incs]})
     for inc in incs:
         pos = tuple(piv[i] + inc[i] for i in range(d))
         if all(i % 2 == 0 for i in inc):
             val = sim._CouplingLevyCopulaSimulation__coupling_state(inc)
             ok = all(_key(val[i]) == _key(fa[i][pos[i]]) for i in range(d))
-            ctx.prove("C03.copula.even_increment_copied_unchanged", ok, info={"inc": inc}, replay=rp)
+            ctx.prove("C03.copula.even_increment_copied_unchanged", ok, info={"inc": inc}, replay=rps)
             continue
         # rate of the fine state (real C01 code path is exercised in C01; here the oracle mass of its full cell)
         central = [(fa[i][piv[i] - 1] / 2, fa[i][piv[i] + 1] / 2) for i in range(d)]
@@ -490,7 +532,7 @@ def h_copula(ctx, parity, which=None):
             prob = th[k] - (th[k - 1] if k else z3.RealVal(0))
             js = [_match(val[i], coarse_axes[i]) for i in range(d)]
             adj = all(js[i] is not None and (js[i] == pos[i] // 2 if inc[i] % 2 == 0 else js[i] in ((pos[i] - 1) // 2, (pos[i] + 1) // 2)) for i in range(d))
-            ctx.prove("C03.copula.odd_coordinates_move_to_adjacent_coarse_states", adj, info={"inc": inc}, replay=rp)
+            ctx.prove("C03.copula.odd_coordinates_move_to_adjacent_coarse_states", adj, info={"inc": inc}, replay=rps)
             if not adj:
                 continue
             # sub-cell sent to this corner: odd coordinates -> the half cell on the corner's side, even coordinates -> the whole fine cell
@@ -692,6 +734,8 @@ def harnesses(tier):
             if q and par in ("oe", "eo") and w > 0:
                 continue
             hs.append(Harness(f"copula.{par}.{w}", h_copula, {"parity": par, "which": w}, max_paths=6000, batch=2))
+    for par in ("after_ee", "after_eo", "after_oe"):
+        hs.append(Harness(f"copula.{par}", h_copula, {"parity": par}, max_paths=6000, batch=2))
     hs.append(Harness("twin", h_twin, twin="must_fail"))
     return hs
 
@@ -704,6 +748,7 @@ EXPECT = ["C03.copula.slice_coarse_values_are_running_sums_of_the_coupled_increm
 
 # reference replays run when the symbolic run of a harness ends in an exception of the code under analysis (see runner.run_check)
 ERROR_REPLAYS = {"1d.": (replay_1d, {"nl": 2, "nr": 2}), "slices.": (replay_slices, {}), "copula.slices": (replay_copula_slices, {}),
+                 "copula.": (replay_copula_sequence, {"incs": [[2, 1], [1, 1], [-1, 2], [-1, -1], [2, -2], [1, -1]]}),
                  "coupled.jumptimes": (replay_coupled_jumptimes, {})}
 
 
